@@ -242,7 +242,8 @@ def ser_rdflib(cfg, stmts, namespaces=(), info: dict | None = None) -> bytes:
                 else (rdflib_statement(s) for s in stmts))
         info["frames"] = _write_frames(rser.stream_frames(stream, data), out, cfg["delimited"])
     elif entry == "flat_to_file":
-        gen = (rdflib_statement(s) for s in stmts)
+        # plain_tuples: statements as ordinary 3-/4-tuples of rdflib terms (what Graph.triples() / hand-written code yields) instead of Triple / Quad objects
+        gen = ((tuple(rdflib_statement(s)) if cfg.get("plain_tuples") else rdflib_statement(s)) for s in stmts)
         if cfg.get("guess"):
             rser.flat_stream_to_file(gen, out)
         else:
